@@ -11,7 +11,7 @@ SPEC = dict(
                "run that missed a path incomplete. Large databases (the shipped one, generated ones of 1200-2700 entries) are asked with their most "
                "frequent words (requests with more than 400 candidates); one directory in 96 is crowded with 300-20000 entries that announce nothing; half of the twin directories (same listing, other place) "
                "lie inside other projects (a repository and markers of other project types in the parent directories). "
-               "Exploration over generated inputs, not a proof.",
+               "Exploration over generated inputs, not a proof. A tenth of the generated directories hold one or two markers (every marker name in turn) beside a Makefile whose recipes run the tools of those project types and others.",
     level_note="Trusted: generators, the reference tokenizer of vlib (decides 'contains a boosted word' on the SearchUniversal path), entry identity "
                "by address, the Go runtime and the local file system (os.ReadDir order). Only generated inputs are decided.",
     engines=[
